@@ -288,6 +288,86 @@ func c16orderedTargets(rng *sx.Rng, n int) {
 	}
 }
 
+type c16mt struct {
+	Timeout int            `yaml:"timeout"`
+	Name    string         `yaml:"name"`
+	Queue   string         `yaml:"queue" aliases:"q"`
+	Rest    map[string]any `yaml:",inline"`
+}
+
+// c16merges: the keys a mapping gets through `<<` merges are input keys like any other - a chain of mappings, each
+// merging the previous one and overriding some keys before or after its own `<<`, decoded into a struct with an
+// inline catch-all, must give what the YAML library's own decoder gives for the same node
+func c16merges(rng *sx.Rng, n int) {
+	keys := []string{"timeout", "name", "queue", "extra1", "extra2"}
+	val := func(k string, lv int) string {
+		if k == "timeout" {
+			return fmt.Sprint(10*lv + rng.Intn(9))
+		}
+		return fmt.Sprintf("%s-l%d-%d", k, lv, rng.Intn(9))
+	}
+	for i := 0; i < n; i++ {
+		depth := 2 + rng.Intn(3)
+		var b strings.Builder
+		for lv := 0; lv < depth; lv++ {
+			var before, after []string
+			for _, k := range keys {
+				if rng.Chance(45) {
+					e := k + ": " + val(k, lv)
+					if rng.Chance(50) {
+						before = append(before, e)
+					} else {
+						after = append(after, e)
+					}
+				}
+			}
+			parts := before
+			if lv > 0 {
+				src := fmt.Sprintf("*lv%d", lv-1)
+				if lv > 1 && rng.Chance(25) {
+					src = fmt.Sprintf("[*lv%d, *lv%d]", lv-1, lv-2)
+				}
+				parts = append(parts, "<<: "+src)
+			}
+			parts = append(parts, after...)
+			name := fmt.Sprintf("lv%d: &lv%d ", lv, lv)
+			if lv == depth-1 {
+				name = "target: "
+			}
+			fmt.Fprintf(&b, "%s{%s}\n", name, strings.Join(parts, ", "))
+		}
+		text := b.String()
+		short := sx.L(sx.A("merge-chain"), sx.A(text))
+		var doc yaml.Node
+		if yaml.Unmarshal([]byte(text), &doc) != nil || len(doc.Content) != 1 {
+			continue
+		}
+		root := doc.Content[0]
+		target := root.Content[len(root.Content)-1]
+		var viaOrdered, viaYAML c16mt
+		var oerr error
+		func() {
+			defer func() {
+				if r := recover(); r != nil {
+					oerr = fmt.Errorf("panic: %v", r)
+				}
+			}()
+			oerr = ordered.Unmarshal(target, &viaOrdered)
+		}()
+		yerr := target.Decode(&viaYAML)
+		ob, _ := json.Marshal(viaOrdered)
+		yb, _ := json.Marshal(viaYAML)
+		if yerr != nil {
+			continue
+		}
+		if oerr != nil || sortedJSON(ob) != sortedJSON(yb) {
+			oracleFail("C16", "differs-from-yaml.v3", short, fmt.Sprintf("ordered.Unmarshal gives %s (err %v), yaml.v3 gives %s", sortedJSON(ob), oerr, sortedJSON(yb)))
+			continue
+		}
+		stat("C16", "merge-chains")
+	}
+}
+
 // c16edges: null zeroes what it is unmarshalled into, whatever that is; nil and non-pointer destinations are
 // refused with the documented errors (a fixed table)
 func c16edges() {
@@ -377,6 +457,11 @@ func c16edges() {
 func init() {
 	props["C16"] = func(rng *sx.Rng, thorough bool) {
 		c16edges()
+		if thorough {
+			c16merges(rng, 5000)
+		} else {
+			c16merges(rng, 300)
+		}
 		if thorough {
 			c16orderedTargets(rng, 5000)
 		} else {
